@@ -25,7 +25,8 @@ import sys
 
 from .. import mon, mcwrap, refsem, reflang, gen, mcwork, defects, probes
 from ..mon import LOG
-from ..neutral import show, NK, nk_of, build, lang, snapshot_diff
+from ..neutral import (show, NK, nk_of, build, lang, snapshot_diff,
+                       same_structure)
 
 PROP = 'C15'
 
@@ -177,7 +178,7 @@ def judge(c):
     nk = c.nk
     # purity
     LOG.hit('c15.purity', c.site)
-    if c.post is None or c.pre != c.post:
+    if not same_structure(c.pre, c.post):
         LOG.violation('c15.purity', PROP, c.case(),
                       {'changed': snapshot_diff(c.pre, c.post or {})},
                       'structure unchanged',
